@@ -8,6 +8,7 @@ From Verif Require Import Interp.RunAtpsrv Interp.RunAtpxp.
 From Verif Require Import Interp.RunC04 Interp.RunC12.
 From Verif Require Import Interp.RunC17.
 From Verif Require Import Interp.RunDescribe.
+From Verif Require Import Interp.RunHello.
 From Verif Require Import Interp.RunXSchema.
 Open Scope string_scope.
 
@@ -36,6 +37,7 @@ Definition run_case (x : sexp) : sexp :=
       else if String.eqb fam "c17x" then run_c17x_case payload
         else if String.eqb fam "c09describe" then run_describe_case payload
         else if String.eqb fam "c10mutants" then run_mutant_case payload
+        else if String.eqb fam "c09hello" then run_hello_case payload
         else if String.eqb fam "structobj" then run_xschema_case payload
         else if String.eqb fam "c14x" then run_c14x_case payload
         else bad "unknown family" in
